@@ -55,6 +55,7 @@ type Case struct {
 	Seq     []Case `json:"seq,omitempty"`  // family "seq": the calls, in order
 	Key2    string `json:"key2,omitempty"` // family "repeat": the wrong key tried first
 	Gen     string `json:"gen,omitempty"`  // family "kwgen": seed (hex) of the generator of the Size bytes of key data
+	Kid     string `json:"kid,omitempty"`  // family "keyid": the kid the jwk key of this step carries
 }
 
 func hx(b []byte) string { return hex.EncodeToString(b) }
@@ -1487,6 +1488,17 @@ func (h *H) replay(path string) {
 		}
 		return
 	}
+	if fam, _ := generic["family"].(string); fam == "hist" || fam == "keyid" {
+		var hc Case
+		if err := json.Unmarshal(rf.Case, &hc); err == nil {
+			if fam == "hist" {
+				h.replayHist(hc)
+			} else {
+				h.replayKeyHist(hc)
+			}
+		}
+		return
+	}
 	if fam, _ := generic["family"].(string); fam == "seq" {
 		var sc Case
 		if err := json.Unmarshal(rf.Case, &sc); err == nil {
@@ -1628,6 +1640,10 @@ func main() {
 		h.padDirect()
 		h.cbcHmacDirect()
 		nameBoundaries(h, getKeys())
+		// multi-step histories on shared objects (hist.go); own random stream so that the other families keep theirs
+		hr := lib.NewRand((f.Seed+uint64(r)*977)*0x9e3779b97f4a7c15 + 0xC0308)
+		h.aeadHistories(hr)
+		h.keyIdentities(hr)
 	}
 	tSym := time.Since(t0)
 	obs := runAsym(res, f.Tier, h.rng.Fork(), f.Search)
